@@ -392,7 +392,11 @@ _c("C01",
    "kinds incl. down- and up-casts between classes that re-declare a field) ; a defaults stream (every leaf declaration, alone and under the wrappers, as a field the caller OMITS, with every constant default "
    "typedpy lets the class be defined with - falsy and conversion-needing ones included - and with a default factory made to return every "
    "near-miss value after a conforming one at definition, through every entry point that can leave a field out; findings keyed "
-   ".../omitted-default:factory|falsy-constant|constant); and random chains of 1-4 real entry points over generated "
+   ".../omitted-default:factory|falsy-constant|constant); an aged-instance stream (a valid instance whose unwrapped inner container - a set in "
+   "an Array/Deque/Map/Tuple, the inner list of an Array of Arrays, a dict - is then altered in place with a value the item declaration "
+   "rejects, the field's LIVE stored object handed to clone, cast down/up, from_other_class(instance|mapping|object), Cls(f=x.f), "
+   "deserialize: each must re-validate and refuse; such constructing steps are in the statement's domain whatever the state of the current "
+   "instance); and random chains of 1-4 real entry points over generated "
    "class environments are run step by step; every reified instance is judged by the independent spec (inst_ok, deep_valid) and compared "
    "with the model's run_entry inside Coq; JSON-shaped documents are additionally compared with the deserialization model.",
    "Trusted: Coq kernel + vm_compute; Instance.v/Entry.v/Deserialize.v hand-written (validated by correspondence); the two recognisers "
